@@ -1,2 +1,3 @@
 pub mod objmodel;
+pub mod print;
 pub mod rfc8259;
